@@ -1015,6 +1015,14 @@ class Interp:
             a, b = to_z3(l), to_z3(r)
             if z3.is_bool(a) and z3.is_bool(b):
                 return z3.simplify(z3.And(a, b) if isinstance(op, ast.BitAnd) else z3.Or(a, b))
+        INF = (float("inf"), float("-inf"))
+        if (is_z3(l) or is_z3(r)) and ((isinstance(l, float) and l in INF) or (isinstance(r, float) and r in INF)):
+            # extended reals: inf +/- finite
+            if isinstance(op, ast.Add):
+                return l if isinstance(l, float) else r
+            if isinstance(op, ast.Sub):
+                return l if isinstance(l, float) else -r
+            raise Unsupported("arithmetic with an infinite constant other than +/-", node)
         if is_z3(l) or is_z3(r):
             if not (is_z3(l) or is_num(l) or isinstance(l, bool)) or not (is_z3(r) or is_num(r) or isinstance(r, bool)):
                 raise Unsupported(f"arithmetic on {type(l).__name__} and {type(r).__name__}", node)
